@@ -28,6 +28,8 @@ func splitpath(name string) (dir, file string) {
 
 func New(r *zip.Reader) afero.Fs {
 	fs := &Fs{r: r, files: make(map[string]map[string]*zip.File)}
+	// the root directory exists even when no entry is stored directly in it
+	fs.files[afero.FilePathSeparator] = make(map[string]*zip.File)
 	for _, file := range r.File {
 		d, f := splitpath(file.Name)
 		if _, ok := fs.files[d]; !ok {
